@@ -3,6 +3,8 @@ from __future__ import annotations
 
 import ast
 
+import sympy as sp
+
 from ..core import AnalysisError, norm
 from .. import symx, spec, aud
 from ..symx import Tx, E, S, fmt_cond, c_and, c_or, c_not, cond_atoms, eval_cond, rows
@@ -37,6 +39,11 @@ def run(chk):
     r3(chk)
     r4(chk)
     r5(chk)
+    r6(chk)
+    # R7: the NEN tallies are sums of vote_for_cand: its table (1 iff cand stands, is ranked, and no other standing candidate is
+    # ranked before it) is the generator-side rule of C14.R4
+    from . import c14
+    chk.borrow(c14.r4, {"C14.R4": "C04.R7"})
 
 
 def roles_raire(fn):
@@ -187,6 +194,19 @@ def r1(chk):
         # publication: best_asrtn = nen inside the guard
         pub = [s for t, v, s in stores(a) if norm(t) == rf.get("best") and norm(v) == nv]
         ok = ok and len(pub) == 1
+        # the object that is published is the one created and filled in under the very same conditions: the constructor call,
+        # the two tally stores and the publication are controlled by the same tests (an object created once and re-targeted on a
+        # later iteration would keep the tallies of the pair it was created for)
+        if ok:
+            ctl = lambda x: [(id(n_), b_) for n_, b_ in _guard_of(x, fb)]
+            same_ctl = all(ctl(s_) == ctl(pub[0]) for t_, v_, s_ in stores(a)
+                           if isinstance(t_, ast.Attribute) and norm(t_.value) == nv and t_.attr in ("votes_for_winner", "votes_for_loser"))
+            same_ctl = same_ctl and ctl(st) == ctl(pub[0])
+            retarget = [norm(s_)[:60] for t_, v_, s_ in stores(fb) if isinstance(t_, ast.Attribute) and norm(t_.value) == nv
+                        and t_.attr in ("winner", "loser", "eliminated", "contest")]
+            detail["same_control"] = same_ctl
+            detail["identity_fields_rewritten"] = retarget
+            ok = same_ctl and not retarget
     chk.ob("C04.R1", where, "nen-guard-and-report", ok,
            "an NEN assertion is created only under the strict guard tally(winner) > tally(loser); both tallies are sums over all ballots "
            "of vote_for_cand with the very (candidate, eliminated) handed to the constructor, and are what the assertion reports",
@@ -335,6 +355,34 @@ def r3(chk):
     chk.ob("C04.R3", f"{RU}:find_best_audit", "estimate-finite-iff-assertion", ok,
            "node.estimate is assigned only under `best_asrtn is not None` (from that assertion's difficulty), and node.best_assertion is "
            "that same assertion: finite estimate <=> assertion present", node=fb, strength="N")
+    # the invariant manage_node relies on: a node's best_ancestor is the ancestor of least estimate.  It is maintained where
+    # children are created (the expansion loop and perform_dive are siblings): the child's best ancestor is the parent's when that
+    # exists and is at least as good as the parent itself, otherwise the parent.
+    sites = []
+    for rel_, q_ in ((RA, "compute_raire_assertions"), (RU, "perform_dive")):
+        f_ = chk.fn(rel_, q_)
+        for t, v, s0 in stores(f_):
+            if isinstance(t, ast.Attribute) and t.attr == "best_ancestor":
+                sites.append((rel_, q_, t, v, s0))
+    for k, (rel_, q_, t, v, s0) in enumerate(sites):
+        okb = False
+        detail = dict(value=norm(v)[:160])
+        P = norm(v.orelse) if isinstance(v, ast.IfExp) and isinstance(v.orelse, ast.Name) else None
+        if P is None and isinstance(v, ast.IfExp) and isinstance(v.body, ast.Name):
+            P = norm(v.body)
+        if P:
+            try:
+                got = Tx().expr(v)
+                want = Tx().expr(ast.parse(f"{P}.best_ancestor if ({P}.best_ancestor is not None and {P}.best_ancestor.estimate <= {P}.estimate) else {P}",
+                                           mode="eval").body)
+                okb = symx.equivalent(got, want)[0]
+            except symx.Unsupported as e:
+                detail["untranslated"] = str(e)
+        chk.ob("C04.R3", f"{rel_}:{q_}", f"best-ancestor-is-least-estimate-ancestor@{k}", okb,
+               "a child's best_ancestor is the parent's best ancestor when that exists and its estimate is <= the parent's, otherwise "
+               "the parent (so best_ancestor.estimate is the least estimate among the ancestors, which manage_node compares with)",
+               node=s0, strength="N", **detail)
+    chk.need("C04.R3", len(sites), 2, "sites assigning a child's best_ancestor")
     # manage_node: a leaf with no way to prune it reports 'audit not possible' before any insertion
     mn = chk.fn(RU, "manage_node")
     # by paths, whatever the nesting (if/else or guard clauses): on every path that a leaf with two infinite estimates can take,
@@ -442,3 +490,74 @@ def r5(chk):
                        "two assertions are the same only if they are of the same kind (first operand of the conjunction is the class test)",
                        node=fn, strength="N", type_tests=tests)
     chk.need("C04.R5", n, 4, "same_as / subsumes implementations")
+
+
+
+def r6(chk):
+    """Bookkeeping of what an assertion rules out.  `rules_out` (the tails of the alternative-outcome tree an assertion disposes of)
+    is consulted by NENAssertion.subsumes and by the sort: when the harvest discards an assertion because an equivalent
+    (`same_as`) or stronger (`subsumes`) one is kept, the branches it ruled out have to be handed to the one kept -- otherwise a
+    later subsumption test sees a kept assertion that covers fewer branches than it does and may drop an assertion that is
+    still needed (an elimination order is then contradicted by nothing returned)."""
+    fn = chk.fn(RA, "compute_raire_assertions")
+    where = f"{RA}:compute_raire_assertions"
+    sites = [c for c in ast.walk(fn) if isinstance(c, ast.Call) and isinstance(c.func, ast.Attribute) and c.func.attr in ("same_as", "subsumes")
+             and len(c.args) == 1]
+    chk.need("C04.R6", len(sites), 2, "same_as / subsumes call sites in the harvest")
+    for k, c in enumerate(sites):
+        recv, arg = norm(c.func.value), norm(c.args[0])
+        st = parent(c)
+        while st is not None and not isinstance(st, ast.stmt):
+            st = parent(st)
+        ok = False
+        detail = dict(call=norm(c))
+        if isinstance(st, ast.If) and st.test is c:
+            loop = next((a for a in ancestors(st) if isinstance(a, ast.For)), None)
+            kept = norm(loop.target) if loop is not None else None  # the element of the list of assertions kept so far
+            other = arg if kept == recv else recv
+            merged = False
+            for x in st.body:
+                if isinstance(x, ast.Expr) and isinstance(x.value, ast.Call) and norm(x.value.func) == f"{kept}.rules_out.update" \
+                        and len(x.value.args) == 1 and norm(x.value.args[0]) == f"{other}.rules_out":
+                    merged = True
+                if isinstance(x, ast.AugAssign) and isinstance(x.op, ast.BitOr) and norm(x.target) == f"{kept}.rules_out" \
+                        and norm(x.value) == f"{other}.rules_out":
+                    merged = True
+            ok = kept in (recv, arg) and merged
+            detail.update(kept=kept, discarded=other)
+        chk.ob("C04.R6", where, f"discarded-assertion-hands-over-rules_out@{c.func.attr}", ok,
+               "where an assertion is discarded in favour of an equivalent / subsuming one that is kept, the kept one's rules_out is "
+               "updated with the discarded one's", node=st or fn, strength="N", **detail)
+
+
+    # NEBAssertion.subsumes, per ruled-out tail: the NEB (w never eliminated before l) disposes of a tail iff the tail shows l still
+    # standing after w is gone: l is in the tail and w is not, or both are and w comes first.  A tail containing neither says
+    # nothing about their order, so it is *not* disposed of.
+    from .c14 import iteration_term, CONT
+    from ..symx import I as _I
+    sub = chk.fn(RU, "NEBAssertion.subsumes")
+    loops = [x for x in ast.walk(sub) if isinstance(x, ast.For) and "rules_out" in norm(x.iter)]
+    ok = False
+    detail = {}
+    if len(loops) == 1:
+        l = loops[0]
+        ro = norm(l.target)
+        it = iteration_term(l, Tx())
+        if it is not None:
+            iw, il = f"{ro}.index(self.winner)", f"{ro}.index(self.loser)"
+            in_w, in_l = ("atom", f"in(self.winner,{ro})"), ("atom", f"in(self.loser,{ro})")
+            disposed = c_and(in_l, c_or(c_not(in_w), c_not(("atom", f"lt({il},{iw})"))))
+            want = _I(disposed, E(S(CONT)), E(sp.Integer(0)))
+            # list.index returns a position >= 0, and two different candidates have different positions
+            cons = [lambda r, iw=iw, il=il: not r.get(f"eq(-1,{iw})") and not r.get(f"eq(-1,{il})")
+                    and r.get(f"lt(-1,{iw})", True) and r.get(f"lt(-1,{il})", True)
+                    and not r.get(f"lt({iw},-1)") and not r.get(f"lt({il},-1)")
+                    and not r.get(f"eq({il},{iw})") and not r.get(f"eq({iw},{il})")]
+            okk, n, cex = symx.equivalent(it, want, constraints=cons)
+            after = [x for x in (parent(l).orelse if l in getattr(parent(l), "orelse", []) else parent(l).body)]
+            nxt = after[after.index(l) + 1] if after.index(l) + 1 < len(after) else None
+            ok = okk and isinstance(nxt, ast.Return) and norm(nxt.value) == "True" and norm(l.iter) == "other.rules_out"
+            detail = dict(rows=n, counterexample=cex)
+    chk.ob("C04.R6", f"{RU}:NEBAssertion.subsumes", "tail-disposed-iff-loser-outlasts-winner", ok,
+           "an NEB(w, l) is said to dispose of a ruled-out tail iff l is in the tail and (w is not, or w comes before l); every tail of the "
+           "other assertion is examined and True is returned only after all were", node=sub, **detail)
